@@ -172,10 +172,43 @@ func (w *World) scanGlobals() {
 	w.globNonNil = map[*ssa.Global]bool{}
 	for _, f := range w.funcs {
 		isInit := f.Name() == "init" && f.Parent() == nil
+		// composite literals built in a local and then stored whole into a global
+		localConst := map[*ssa.Alloc]map[int]constInit{}
 		for _, b := range f.Blocks {
 			for _, in := range b.Instrs {
 				switch i := in.(type) {
 				case *ssa.Store:
+					if isInit {
+						if fa, ok := i.Addr.(*ssa.FieldAddr); ok {
+							if al, ok := fa.X.(*ssa.Alloc); ok {
+								if c, isC := i.Val.(*ssa.Const); isC {
+									if localConst[al] == nil {
+										localConst[al] = map[int]constInit{}
+									}
+									localConst[al][fa.Field] = constInit{c.Value, c.Type()}
+								}
+								continue
+							}
+						}
+						if g, ok := i.Addr.(*ssa.Global); ok {
+							if ld, ok := i.Val.(*ssa.UnOp); ok {
+								if al, ok := ld.X.(*ssa.Alloc); ok && localConst[al] != nil && w.globInit[g] == nil {
+									st := structOf(al.Type().Underlying().(*types.Pointer).Elem())
+									if st != nil {
+										w.globInit[g] = map[int]constInit{}
+										for k := 0; k < st.NumFields(); k++ {
+											if ci, ok := localConst[al][k]; ok {
+												w.globInit[g][k] = ci
+											} else if bt, ok := st.Field(k).Type().Underlying().(*types.Basic); ok && bt.Info()&(types.IsString|types.IsInteger|types.IsBoolean) != 0 {
+												w.globInit[g][k] = constInit{nil, st.Field(k).Type()}
+											}
+										}
+										continue
+									}
+								}
+							}
+						}
+					}
 					g, fi, ok := rootGlobal(i.Addr)
 					if !ok {
 						continue
